@@ -137,7 +137,9 @@ def hostile_cases(args):
             r["created_outside"] = [p for p in after_outside if p not in before_outside]
             res["results"].append(r)
             if sibling.exists(): shutil.rmtree(sibling)
-        # the writer's sub-directory argument
+        # the writer's sub-directory argument (environment variables and `~` are not expanded by a path: with these values an
+        # expansion *after* the check would lead outside)
+        os.environ.update({"C17_UP": "../../../outside/esc", "C17_MIX": "0/../../../../outside/esc2", "C17_ABS": str(outside / "esc3"), "HOME": str(outside / "home")})
         for sub in a["subdirs"]:
             work = base / "work"
             if work.exists(): shutil.rmtree(work)
@@ -235,7 +237,8 @@ def run(ctx):
                {"field": "child", "path": "$OUT"}, {"field": "child", "path": "$RELOUT"}, {"field": "self", "path": "$RELOUT"}, {"field": "self", "path": "$OUT"},
                {"field": "symlink", "path": "unrelated"}, {"field": "symlink", "path": "prefix-sibling"}]
     actions = ["open", "check", "sync", "concurrent", "write"] + (["rust", "tf", "async"] if ctx.thorough else ["rust"])
-    subdirs = ["..", "../x", "a/../../x", "$ABS", "a/./b", "$REENTER2", "$REENTER3", "$REENTERX"]
+    subdirs = ["..", "../x", "a/../../x", "$ABS", "a/./b", "$REENTER2", "$REENTER3", "$REENTERX",
+               "worker_$C17_MIX", "${C17_UP}", "$C17_ABS", "~/sub", "~", "%C17_UP%"]
     args = [{"base": str(ctx.scratch / f"c17_{fmt}"), "fmt": fmt, "tampers": tampers, "actions": actions, "subdirs": subdirs} for fmt in (["fb"] if not ctx.thorough else ["fb", "npz", "tfrec"])]
     for r in child.call("harness.checks.c17", "relative_root_chdir", {"base": str(ctx.scratch / "c17_rel"), "fmt": ["fb", "npz"][ctx.seed % 2]}, timeout=600):
         if r.get("outside") or r.get("ids") != list(range(7)):
@@ -283,7 +286,7 @@ def run(ctx):
         "rule": "strings from a path grammar (components a .. . '' ... ..a a.. shards_list.json x.fb 'b c' é; leading '', /, //, ///; depth 0-6; trailing /) through pathlib, "
                 "FileInfo, ShardsList, ShardListInfo and the filler guard; crafted datasets whose shard / child-list / self paths point (absolutely, relatively, via ..) to a valid "
                 "shard outside the root, opened/checked/iterated/written with every open recorded; a sub-directory that is a symbolic link to a list outside the root (unrelated place, "
-                "and a sibling whose name starts with the root's name) written into again; hostile writer sub-directories",
+                "and a sibling whose name starts with the root's name) written into again; hostile writer sub-directories (.., absolute, re-entering, and names holding $VAR / ${VAR} / ~ whose expansion would lead outside)",
         "samples": [{"s": r["s"], "file": r["file"], "normpath": r["normpath"]} for r in real[:6]],
         "input_distribution": {"strings": len(real), "classes(abs,dotdot,accepted)": {str(k): v for k, v in classes.items()}, "hostile_events": nh},
     })
